@@ -1,9 +1,11 @@
 open Model
 open Conv
 open A07lib
+open A07zcfg
 
 (* passes field: "<p>" or "<p>L" (provider with preload: the deliveries must be the same) *)
 let passes_of (p : string) : int =
+  let p = fst (split_cfg p) in
   let p = (match String.index_opt p '%' with Some i -> String.sub p 0 i | None -> p) in
   let p = (match String.index_opt p '@' with Some i -> String.sub p 0 i | None -> p) in
   let n = String.length p in
@@ -11,6 +13,7 @@ let passes_of (p : string) : int =
 
 (* "@<digits>": the instance schedule of the case, if any *)
 let sched_of (p : string) : int list option =
+  let p = fst (split_cfg p) in
   let p = (match String.index_opt p '%' with Some i -> String.sub p 0 i | None -> p) in
   match String.index_opt p '@' with
   | None -> None
@@ -57,6 +60,18 @@ let count_req toks = List.length (List.filter (function TR _ -> true | _ -> fals
 let finish obs k pred want n wf =
   (pred, verdict (obs = want) ("expected " ^ want), n >= 2 && wf)
 
+(* cases with configured default headers ("^..." in the passes field).  [lift]: the deliveries of the
+   decoder model with the configured map merged in as the decoder does it; [bld]: BuildRequest of the
+   model; [bld_s]: the request the specification expects for an entry as the file says it. *)
+let cfg_case p k obs n wf (hs : n list list) lift body_of with_body bld bld_s rs es =
+  match config_headers hs [] with
+  | Inr _ -> ("newerr", verdict (obs = "newerr") "expected newerr", false)
+  | Inl cfg ->
+      let pred = (match sched_run p k body_of with_body (lift cfg rs) with
+                  | Some rs -> print_run_b bld k rs | None -> "bad-schedule") in
+      let want = print_expected_b (bld_s cfg) k es in
+      finish obs k pred want n wf
+
 let predict (c : string) (obs : string) : string * string * bool =
   match split_blank c with
   | "uri" :: p :: fin :: file :: toks ->
@@ -70,10 +85,15 @@ let predict (c : string) (obs : string) : string * string * bool =
       else begin
         let n = count_req toks in
         let k = passes_of p * n + 1 in
+        let wf = List.for_all (wf_uitem url_parse max_token) items in
+        match snd (split_cfg p) with
+        | Some hs ->
+            cfg_case p k obs n wf hs line_run_cfg mentry_body mentry_with_body bld_mentry bld_spec
+              (uri_decode url_parse max_token cfg0 (nat_of_int k) fileb) (uri_entries (List.map fst items) [])
+        | None ->
         let pred = (match sched_run p k entry_body entry_with_body (uri_decode url_parse max_token cfg0 (nat_of_int k) fileb) with
                     | Some rs -> print_run bld_entry k rs | None -> "bad-schedule") in
         let want = print_expected bld_entry k (uri_entries (List.map fst items) []) in
-        let wf = List.for_all (wf_uitem url_parse max_token) items in
         (pred, verdict (obs = want) ("expected " ^ want), n >= 2 && wf)
       end
   | "uripost" :: p :: fin :: file :: toks ->
@@ -87,6 +107,11 @@ let predict (c : string) (obs : string) : string * string * bool =
       else begin
         let n = count_req toks in
         let k = passes_of p * n + 1 in
+        match snd (split_cfg p) with
+        | Some hs ->
+            cfg_case p k obs n (List.for_all (wf_pitem url_parse) items) hs line_run_cfg mentry_body mentry_with_body
+              bld_mentry bld_spec (uripost_decode url_parse cfg0 (nat_of_int k) fileb) (uripost_entries (List.map fst items) [])
+        | None ->
         let pred = (match sched_run p k entry_body entry_with_body (uripost_decode url_parse cfg0 (nat_of_int k) fileb) with
                     | Some rs -> print_run bld_entry k rs | None -> "bad-schedule") in
         let want = print_expected bld_entry k (uripost_entries (List.map fst items) []) in
@@ -103,6 +128,11 @@ let predict (c : string) (obs : string) : string * string * bool =
       else begin
         let n = count_req toks in
         let k = passes_of p * n + 1 in
+        match snd (split_cfg p) with
+        | Some hs ->
+            cfg_case p k obs n (List.for_all wf_ritem items) hs raw_run_cfg mrentry_body mrentry_with_body
+              bld_mraw bld_raw_spec (raw_decode cfg0 (nat_of_int k) fileb) (raw_entries (List.map fst items))
+        | None ->
         let pred = (match sched_run p k rentry_body rentry_with_body (raw_decode cfg0 (nat_of_int k) fileb) with
                     | Some rs -> print_run bld_raw k rs | None -> "bad-schedule") in
         let want = print_expected bld_raw k (raw_entries (List.map fst items)) in
@@ -122,6 +152,23 @@ let predict (c : string) (obs : string) : string * string * bool =
         | _ -> false) in
       if not oracle_ok then ("json-oracle-mismatch", "BAD:json-oracle-mismatch", false)
       else begin
+        let es = List.filter_map (fun d -> match entity_entry url_parse d with Inl e -> Some e | Inr _ -> None) ents in
+        match snd (split_cfg p) with
+        | Some hs ->
+            (match config_headers hs [] with
+             | Inr _ -> ("newerr", verdict (obs = "newerr") "expected newerr", false)
+             | Inl cfg ->
+                 let run rs = (match sched_run p k mentry_body mentry_with_body rs with
+                               | Some rs -> print_run_b bld_mentry k rs | None -> "bad-schedule") in
+                 let pred =
+                   if is_arr then
+                     (match json_array_decode_cfg url_parse cfg cfg0 (nat_of_int k) ents with
+                      | None -> "newerr"
+                      | Some rs -> run rs)
+                   else run (json_stream_decode_cfg url_parse cfg cfg0 (nat_of_int k) ents JEof) in
+                 let want = if List.length es <> n then "entity-rejected" else print_expected_b (bld_spec cfg) k es in
+                 finish obs k pred want n (List.length es = n))
+        | None ->
         let pred =
           if is_arr then
             (match json_array_decode url_parse cfg0 (nat_of_int k) ents with
@@ -130,7 +177,6 @@ let predict (c : string) (obs : string) : string * string * bool =
                            | Some rs -> print_run bld_entry k rs | None -> "bad-schedule"))
           else (match sched_run p k entry_body entry_with_body (json_stream_decode url_parse cfg0 (nat_of_int k) ents JEof) with
                 | Some rs -> print_run bld_entry k rs | None -> "bad-schedule") in
-        let es = List.filter_map (fun d -> match entity_entry url_parse d with Inl e -> Some e | Inr _ -> None) ents in
         let want = if List.length es <> n then "entity-rejected" else print_expected bld_entry k es in
         finish obs k pred want n (List.length es = n)
       end
